@@ -184,10 +184,10 @@ def update_merge(current_value, new_value):
         shared keys, the value in ``new_value`` is used.
     """
     update = current_value.copy()
-    for k, v in current_value.items():
-        new = new_value.get(k)
-        if isinstance(new, dict):
-            update[k] = deep_merge(copy.deepcopy(v), new)
+    for k, new in new_value.items():
+        current = update.get(k)
+        if isinstance(new, dict) and isinstance(current, dict):
+            update[k] = deep_merge(copy.deepcopy(current), new)
         else:
             update[k] = new
     return update
